@@ -66,9 +66,17 @@ def run_io(doc, fmt, voc):
         except Exception as e:
             texts["string"] = None
             out["text"]["string_exc"] = type(e).__name__
-        for kind in ("text", "binary", "path", "pathover"):
+        for kind in ("text", "binary", "path", "pathover", "textfile"):
             try:
-                if kind == "pathover":
+                if kind == "textfile":
+                    # a file-backed TEXT stream whose encoding is not UTF-8: the stream encodes, the
+                    # library writes text
+                    p = os.path.join(root, "t16." + fmt)
+                    with io.open(p, "w", encoding="utf-16", newline="") as fh:
+                        doc.serialize(fh, format=fmt)
+                    with io.open(p, "r", encoding="utf-16", newline="") as fh:
+                        texts[kind] = fh.read()
+                elif kind == "pathover":
                     # the named file already exists and is LONGER than what is written now
                     p = os.path.join(root, "over." + fmt)
                     with io.open(p, "wb") as fh:
@@ -91,7 +99,7 @@ def run_io(doc, fmt, voc):
                         texts[kind] = fh.read().decode("utf-8")
             except Exception as e:
                 texts[kind] = None
-        for kind in ("text", "binary", "path", "pathover"):
+        for kind in ("text", "binary", "path", "pathover", "textfile"):
             out["text"][kind] = same_text(fmt, texts.get("string"), texts.get(kind))
         if fmt == "provn":
             return out
@@ -102,10 +110,19 @@ def run_io(doc, fmt, voc):
         with io.open(path, "wb") as fh:
             fh.write(data)
 
+        # a local file name with URL syntax in it, and the text file written above through its own stream
+        hpath = os.path.join(root, "in#1;v=2." + fmt)
+        with io.open(hpath, "wb") as fh:
+            fh.write(data)
+        tpath = os.path.join(root, "t16." + fmt)
+        opened = []
+
         def sources():
+            t16 = io.open(tpath, "r", encoding="utf-16", newline="")
+            opened.append(t16)
             return {"content_str": dict(content=text), "content_bytes": dict(content=data),
                     "text": dict(source=io.StringIO(text)), "binary": dict(source=io.BytesIO(data)),
-                    "path": dict(source=path)}
+                    "path": dict(source=path), "pathurl": dict(source=hpath), "textfile": dict(source=t16)}
         for kind, kw in sources().items():
             try:
                 out["doc"][kind] = doc_digest(ProvDocument.deserialize(format=fmt, **kw), voc, setlike)
@@ -122,7 +139,7 @@ def run_io(doc, fmt, voc):
                 out["read"][key + "_detect"] = doc_digest(prov.read(pth), voc, setlike)
             except Exception as e:
                 out["read"][key + "_detect"] = "error:" + type(e).__name__
-        for kind in ("text", "binary", "path"):
+        for kind in ("text", "binary", "path", "pathurl"):
             for how in ("explicit", "detect"):
                 kw = sources()[kind]
                 try:
@@ -130,6 +147,11 @@ def run_io(doc, fmt, voc):
                     out["read"][kind + "_" + how] = doc_digest(d, voc, setlike)
                 except Exception as e:
                     out["read"][kind + "_" + how] = "error:" + type(e).__name__
+        for f in opened:
+            try:
+                f.close()
+            except Exception:
+                pass
         return out
     finally:
         shutil.rmtree(root, ignore_errors=True)
